@@ -13,6 +13,9 @@ COMPILER = Obj('beanquery.compiler:Compiler', fields=dict(table=Opaque('table'),
 class compile_select_assumed:
     kind = 'assumed'
     params = {'self': COMPILER, 'node': Opaque('ast')}
+    # the permission to be a subquery is consumed before the body of the SELECT is compiled: while the body is compiled a nested
+    # SELECT is allowed only where _compile_subquery grants it again (proved at the call site in Compiler._select)
+    requires = lambda self: self.subquery is False
     modifies = ['self.table']
     result = Opaque('query')
     raises = {'ProgrammingError': None, 'Exception': None}
